@@ -19,6 +19,7 @@ ATTR_AXIS = {
     "x": "W", "y": "H", "z": "C", "width": "W", "height": "H", "depth": "C", "left": "W", "right": "W", "top": "H",
     "bottom": "H", "stride_x": "W", "stride_y": "H", "dilation_x": "W", "dilation_y": "H", "width_0": "W", "height_0": "H",
     "height_1": "H", "pad_top": "H", "pad_bottom": "H", "pad_left": "W", "pad_right": "W",
+    "top_pad": "H", "bottom_pad": "H", "left_pad": "W", "right_pad": "W", "kernel_height": "H", "kernel_width": "W",
 }
 SIDE_WORDS = {"top", "bottom", "left", "right"}
 
